@@ -672,6 +672,10 @@ pub struct Obj {
     pub gap_len: usize,
     pub conf: f32,
     pub motion: u8,
+    /// "pack" preset: the whole scene's pack jumps by this much along x now and then
+    pub pack_jump: f64,
+    /// probability that a detection of this object carries no feature
+    pub feat_drop: f64,
 }
 
 #[derive(Clone, Debug)]
@@ -697,21 +701,29 @@ pub struct WorldOpts {
     pub vary_nobj: bool,
 }
 
-pub const PRESETS: [&str; 7] = ["random", "crossing", "convoy", "crowd", "lookalikes", "teleport", "stop-and-go"];
+pub const PRESETS: [&str; 8] = ["random", "crossing", "convoy", "crowd", "lookalikes", "teleport", "stop-and-go", "pack"];
 
 pub fn gen_world(rng: &mut Rng, o: &WorldOpts) -> Vec<Obj> {
     let mut objs = vec![];
     let mut truth = 0;
-    let nproto = (o.nobj / 2).max(1);
-    let protos: Vec<Vec<f32>> = (0..o.nobj.max(1)).map(|_| unit(rng, o.feat_dim)).collect();
+    let nobj = if o.preset == "pack" { o.nobj.max(5 + rng.usize(4)) } else { o.nobj };
+    let nproto = (nobj / 2).max(1);
+    let protos: Vec<Vec<f32>> = (0..nobj.max(1)).map(|_| unit(rng, o.feat_dim)).collect();
     let convoy_speed = rng.uniform(0.1, 0.9);
     // appearance stability of this world: mostly stable embeddings, sometimes noisy ones (same-object similarities then
     // spread over 0.3..0.95, so that low cosine / wide Euclidean thresholds matter)
     let fnoise = *rng.pick(&[0.03f64, 0.03, 0.03, 0.12, 0.35]);
     let flen_mix = o.features && rng.chance(0.15);
+    // "pack": six or more equally sized objects side by side, spaced by a small fraction of their width, so that every
+    // detection is within the positional gate of every track of the pack (dense, fully contested assignment problems);
+    // the pack (5..8 objects or more, spacing 3..15% of the width) drifts together and now and then jumps as a whole by 1..4 spacings in either direction
+    let pack_sp = rng.uniform(0.03, 0.15);
+    let pack_k = rng.uniform(1.0, 4.0) * if rng.chance(0.5) { 1.0 } else { -1.0 };
+    let pack_feat_drop = *rng.pick(&[0.08f64, 0.6, 1.0]);
+    let pack_v = (rng.uniform(-1.0, 1.0), rng.uniform(-1.0, 1.0));
     for s in 0..o.scenes {
         let lone = o.vary_nobj && s > 0 && rng.chance(0.5);
-        for k in 0..o.nobj {
+        for k in 0..nobj {
             if lone && k >= 1 && !o.same_region {
                 break;
             }
@@ -755,6 +767,13 @@ pub fn gen_world(rng: &mut Rng, o: &WorldOpts) -> Vec<Obj> {
                     vx *= 0.3;
                     vy *= 0.3;
                 }
+                "pack" => {
+                    h = 60.0;
+                    x = 400.0 + k as f64 * h * pack_sp;
+                    y = 300.0 + rng.uniform(-0.5, 0.5);
+                    vx = pack_v.0;
+                    vy = pack_v.1;
+                }
                 "teleport" => {}
                 _ => {}
             }
@@ -794,7 +813,21 @@ pub fn gen_world(rng: &mut Rng, o: &WorldOpts) -> Vec<Obj> {
                 gap_len,
                 conf: if o.low_conf { rng.uniform(0.004, 0.045) as f32 } else if rng.chance(0.3) { if rng.chance(0.3) { rng.uniform(0.004, 0.06) as f32 } else { rng.uniform(0.03, 1.0) as f32 } } else { 1.0 },
                 motion: if o.preset == "stop-and-go" { 3 } else { rng.usize(3) as u8 },
+                pack_jump: 0.0,
+                feat_drop: 0.08,
             });
+            if o.preset == "pack" {
+                let ob = objs.last_mut().unwrap();
+                ob.aspect = 1.0;
+                ob.grow = 1.0;
+                ob.motion = 0;
+                ob.angle = None;
+                ob.dangle = 0.0;
+                ob.pack_jump = pack_k * 60.0 * pack_sp;
+                // (in most packs the appearance is of little help: the positional stage has to sort the pack out)
+                ob.feat_drop = pack_feat_drop;
+                continue;
+            }
             // one object in sixteen is parked: it is reported with bit-identical box parameters frame after frame (a
             // standing object seen by a deterministic detector), so consecutive observations and predictions coincide
             if !(o.same_region && s > 0) && rng.chance(1.0 / 16.0) {
@@ -848,6 +881,9 @@ pub fn step_scene(rng: &mut Rng, objs: &mut [Obj], scene: u64, step: usize, o: &
             ob.x += ob.vx;
             ob.y += ob.vy;
         }
+        if o.preset == "pack" && ((step as u64).wrapping_mul(0x9E37_79B9_7F4A_7C15) ^ scene.wrapping_mul(0xD6E8_FEB8_6659_FD93)) >> 33 & 3 == 0 {
+            ob.x += ob.pack_jump;
+        }
         if o.preset == "teleport" && rng.chance(0.05) {
             ob.x += ob.h * rng.uniform(3.0, 8.0);
         }
@@ -882,7 +918,7 @@ pub fn step_scene(rng: &mut Rng, objs: &mut [Obj], scene: u64, step: usize, o: &
             h: (ob.h * if parked { 1.0 } else { rng.uniform(0.99, 1.01) }) as f32,
             conf: ob.conf,
         };
-        let feature = if o.features && !rng.chance(0.08) {
+        let feature = if o.features && !rng.chance(ob.feat_drop) {
             let mut f = ob.proto.iter().map(|p| p + (rng.normal() * ob.fnoise) as f32).collect::<Vec<f32>>();
             if ob.flen_mix {
                 for _ in 0..8 * rng.usize(3) {
